@@ -7,7 +7,7 @@ use crate::rng::Rng;
 use crate::run::{Plan, Sched, Special};
 use crate::world::{Init, InitialWb};
 
-pub const CLAIMED: [&str; 10] = ["C01", "C02", "C03", "C04", "C08", "C24", "C25", "C26", "C27", "C28"];
+pub const CLAIMED: [&str; 12] = ["C01", "C02", "C03", "C04", "C08", "C24", "C25", "C26", "C27", "C28", "C29", "C30"];
 
 pub fn runs_for(prop: &str, tier: &str) -> u64 {
     let (q, t) = match prop {
@@ -17,6 +17,7 @@ pub fn runs_for(prop: &str, tier: &str) -> u64 {
         "C24" => (15_000, 400_000),
         "C25" => (20_000, 1_000_000),
         "C04" => (40_000, 1_000_000),
+        "C29" | "C30" => (60_000, 2_000_000),
         _ => (10_000, 200_000),
     };
     let n = if tier == "thorough" { t } else { q };
@@ -72,6 +73,7 @@ fn base_init(rng: &mut Rng, hash_key: u64) -> Init {
         start_paused: false,
         hash_key,
         start_ms: 1_700_000_000_000 + rng.below(1_000_000_000),
+        bare: None,
     }
 }
 
@@ -142,6 +144,21 @@ pub fn plan(prop: &str, rng: &mut Rng, hash_key: u64) -> Plan {
             profile.p_undo = 0.08;
             profile.hostile = rng.chance(0.5);
         }
+        "C29" | "C30" => {
+            // the workload comes from lines::line_event; the rest of the catalogue is
+            // sprinkled in (the reference models resynchronise after what they do not describe)
+            sched.p_probe = *rng.pick(&[0.8, 0.9, 0.97]);
+            profile.len = rng.range(3, 40) as usize;
+            profile.p_undo = 0.12;
+            profile.p_redo = 0.08;
+            init.initial = if rng.chance(0.6) { InitialWb::Layout(rng.below(4) as u8) } else { InitialWb::Empty };
+            let fixtures = crate::world::fixtures();
+            init.bare = Some(match rng.below(10) {
+                0..=4 => crate::world::BareInit::Layout(rng.below(4) as u8),
+                5 | 6 if !fixtures.is_empty() => crate::world::BareInit::Fixture(rng.pick(&fixtures).clone()),
+                _ => crate::world::BareInit::Empty,
+            });
+        }
         "C25" => {
             sched.p_probe = 0.5;
             profile.len = rng.range(2, 16) as usize;
@@ -177,6 +194,8 @@ pub fn oracle_for(prop: &str) -> Box<dyn Oracle> {
         "C28" => Box::new(Monitor::new(Which::Selection)),
         "C08" => Box::new(Monitor::new(Which::NonFinite)),
         "C24" => Box::new(XlsxRoundTrip::new()),
+        "C29" => Box::new(crate::lines::LineAttrs::new()),
+        "C30" => Box::new(crate::lines::StyleReadback::new()),
         "C25" => Box::new(CorruptImportOracle::new()),
         _ => Box::new(History::new(HistMode::Undo)),
     }
@@ -196,6 +215,8 @@ pub fn special_for(prop: &str) -> Option<Box<Special>> {
             let label = if plan.is_none() { None } else { Some(format!("write-fault:{}", write_plan_kind(&plan))) };
             Some((crate::ev::Ev::XlsxExportImport { plan }, label))
         })),
+        "C29" => Some(Box::new(|rng, w, p| crate::lines::line_event(rng, w, p, false))),
+        "C30" => Some(Box::new(|rng, w, p| crate::lines::line_event(rng, w, p, true))),
         "C25" => {
             let fixtures = crate::world::fixtures();
             Some(Box::new(move |rng, w, _p| {
@@ -249,6 +270,8 @@ pub fn rule_for(prop: &str) -> String {
         "C02" => "as C01 with undo 25%/redo 20%; non-trivial iff at least one redo of an undone operation was compared against the cursor model".into(),
         "C24" => "histories of 3-25 operations (all families: styles, names, links, conditional formats, arrays, hidden rows/columns, panes...) with, at 12% of the steps, an export of the current workbook through the simulated disk followed by an import of what was written: 70% fault-free (snapshot restricted to the facets the statement lists must be equal), 30% under a drawn write-fault plan (short writes, Interrupted, hard error at byte k, failing seek, failing flush: the call must return Err, or Ok with a file that imports to an equal workbook); non-trivial iff at least one export happened on an evaluated state".into(),
         "C25" => "valid packages (the simulator's own export of a history-reached state, or one of the ~240 fixtures under xlsx/tests) pass through one drawn storage fault - truncation, zero-filled block, bit flips, dropped/duplicated/emptied/swapped zip entries, truncated XML, dropped element, dropped/garbled attribute, forged text payload, deep nesting, garbage - and, in 15% of the cases, through a reader that injects short reads, Interrupted, EIO or early EOF (hook H2); the import (plus Model::from_workbook and evaluate when it returns a workbook) must return; a panic is the violation, a hang or abort is reported through the watchdog; non-trivial iff a damaged package was imported".into(),
+        "C29" => "two nodes per run: a bare Model (empty, one of four multi-column descriptor layouts, or imported from a fixture of xlsx/tests) driven through set_column_width / set_column_hidden / set_column_style / delete_column_style and the row equivalents, with byte-level restarts; and an editing session driven through set_columns_width / set_rows_height / set_columns_hidden / set_rows_hidden, update_range_style and range_clear_formatting on whole columns, whole rows and partial areas, with undo/redo and clean restarts; 3-40 events, lines drawn from 1..12 and the last two of the grid; after every event every line of the check set (window, grid edge, every line a descriptor mentions and its neighbours, every line ever touched) is read through the public getters and compared with the reference map; non-trivial iff at least one modelled setter call, user-level line operation or undo/redo happened".into(),
+        "C30" => "same two nodes; a per-run pool of 10 styles drawn from the attribute space (40 number formats including built-in codes in other letter case, font name/family/scheme/size, five border sides in nine line styles, fill, eight horizontal and five vertical alignments, wrap, quote prefix) is assigned to cells, rows and columns of the bare Model (set_cell_style / set_row_style / set_column_style) and to cell ranges of the session (on_paste_styles), interleaved with the other operations; after every event every tracked target must read back (get_style_for_cell / get_row_style / get_column_style) the style last assigned to it; non-trivial iff at least one style assignment was tracked".into(),
         "C26" => "C01 histories with Save (6%), clean Restart (8%: to_bytes -> from_bytes -> evaluate, new incarnation with another hash seed, history lost) and dirty Restart (4%: crash, load the last saved bytes); the run continues on the restarted node; non-trivial iff a decode/encode workbook equality, a clean-restart or a dirty-restart snapshot comparison was made on an evaluated state".into(),
         "C27" => "C01+C04 mix (invalid calls 0-30%), 0-1 follower fed by the queue, clean restarts 3%, evaluation paused in some runs; the well-formedness scan runs on every live node after every event; non-trivial iff the run contains at least one event that can change structure (operation, undo/redo, delivery, restart)".into(),
         "C28" => "sheet new/delete/duplicate/move/hide/unhide at every index relative to the selected one, selection and navigation events, hide rows/columns, undo/redo, some invalid calls; the selection scan (raw workbook.views / worksheet.views) runs after every event; non-trivial iff the run contains at least one sheet/selection/navigation/undo/redo event".into(),
